@@ -79,6 +79,11 @@ CHECKS = {
     text="Inputs with 2-3 chromosomes and unrelated samples / one or two trios are phased with all list options; each list of the full run must equal the multiset union of the lists of runs restricted to one chromosome and one family; listed reads are compared with the solver-instance trace and the output VCF, changed-genotype lines with the input/output GT diff, recombination entries with accessible positions and recomputed components.",
     note="Trusted: determinism of restricted runs (C16), the trace hook for read membership, htslib for the VCF diff.",
     ref="DESIGN.md section 4, C20"),
+ "C09": dict(
+    technique="property-based testing (Hypothesis) incl. a rule-based state machine over phase / unphase / re-phase histories; differential PS-vs-HP, write-then-decode round trip, reference run on the never-phased file",
+    text="Four generated campaigns: the same input phased with both tags must decode identically; random block structures written by PhasedVcfWriter must be returned unchanged by VcfReader; a phased VCF used as the only phase input must reproduce every phase set; and histories of phase(tag, read subset, targets) / unphase steps on one file must leave, after every phase step, exactly the phase statements that the same run produces on the never-phased file (targets) and untouched statements (non-targets).",
+    note="Trusted: pysam-level extraction of phase statements; orphan PS values on unphased genotypes are not counted as phase statements.",
+    ref="DESIGN.md section 4, C09"),
 }
 
 NOT_YET = {}
